@@ -31,7 +31,7 @@ thread_local! {
 }
 
 /// so many other addresses attempt once each, at the same instant
-const CROWD: u32 = 9_000;
+const CROWD: u32 = 20_000;
 
 /// advance alphabet in ms, relative to the window length: d/4, d/2, d-eps, d, d+eps, 2d-eps, 2d, 4d
 fn delta(i: u8) -> u64 {
@@ -506,7 +506,7 @@ pub fn run_with(cli: Cli, extra: &dyn Fn(&Report)) -> ! {
             });
         });
     }
-    rep.set("histories_with_a_crowd_of_9000_addresses", json!(crowd_histories.load(Ordering::Relaxed)));
+    rep.set("histories_with_a_crowd_of_20000_addresses", json!(crowd_histories.load(Ordering::Relaxed)));
 
     // S1 pass, single-threaded
     {
@@ -547,7 +547,7 @@ pub fn run_with(cli: Cli, extra: &dyn Fn(&Report)) -> ! {
     rep.set("deletion_reruns", json!(st.deletions.load(Ordering::Relaxed)));
     rep.set("exhaustive", json!(true));
     rep.set("rule", json!(format!(
-        "every history of exactly {depth} events over attempt(A|B|C) and advance(d/4,d/2,d-1ms,d,d+1ms,2d-1ms,2d,4d), no two consecutive advances, for limit in 1..3 and window length d = 8 s (and d = 1.5 s, 0.4 s one level shallower); every shorter history is a prefix; the same enumeration two levels shallower on a limiter whose uptime crosses 2^31 ms and 2^32 ms during the history; every history of one address of 4 (thorough 5) events with 9000 addresses never seen before attempting once each at every position. A state is the history reaching it (fresh RateLimiter replayed under the paused clock). distinct_nontrivial = distinct (limit, decision vector) pairs observed.")));
+        "every history of exactly {depth} events over attempt(A|B|C) and advance(d/4,d/2,d-1ms,d,d+1ms,2d-1ms,2d,4d), no two consecutive advances, for limit in 1..3 and window length d = 8 s (and d = 1.5 s, 0.4 s one level shallower); every shorter history is a prefix; the same enumeration two levels shallower on a limiter whose uptime crosses 2^31 ms and 2^32 ms during the history; every history of one address of 4 (thorough 5) events with 20000 addresses never seen before attempting once each at every position. A state is the history reaching it (fresh RateLimiter replayed under the paused clock). distinct_nontrivial = distinct (limit, decision vector) pairs observed.")));
     rep.sample(json!({"history": ev_json(&[Ev::Att(0), Ev::Att(0), Ev::Adv(2), Ev::Att(1), Ev::Att(0), Ev::Adv(6), Ev::Att(0)]), "limit": 1}));
     rep.sample(json!({"history": ev_json(&jobs[0]), "limit": 2}));
     rep.assume("time is tokio's paused clock; inter-arrival times are the stated alphabet (real-valued time in between is represented by the +-1 ms neighbours of d and 2d)");
